@@ -19,7 +19,7 @@ use std::{
 };
 
 use proptest::{
-    strategy::{Strategy, ValueTree},
+    strategy::{BoxedStrategy, Strategy, ValueTree},
     test_runner::{Config, RngAlgorithm, RngSeed, TestCaseError, TestError, TestRng, TestRunner},
 };
 use serde::{de::DeserializeOwned, Serialize};
@@ -292,22 +292,21 @@ fn eval_guarded<C>(ctx: &Ctx, eval: &(dyn Fn(&Ctx, &C) -> Verdict + Sync), case:
 }
 
 /// Random part: a proptest strategy with a fixed number of cases.
-pub struct RandomPart<S, C>
+pub struct RandomPart<C>
 where
-    S: Strategy<Value = C> + Sync,
     C: Clone + Debug + Serialize + DeserializeOwned + Send,
 {
     pub name: &'static str,
     pub rule: &'static str,
     pub cases: u64,
-    pub strategy: S,
+    /// Strategy factory: every worker thread builds its own strategy (BoxedStrategy is not Sync).
+    pub strategy: Box<dyn Fn() -> BoxedStrategy<C> + Sync>,
     pub eval: Box<dyn Fn(&Ctx, &C) -> Verdict + Sync>,
 }
 
-impl<S, C> Part for RandomPart<S, C>
+impl<C> Part for RandomPart<C>
 where
-    S: Strategy<Value = C> + Sync,
-    C: Clone + Debug + Serialize + DeserializeOwned + Send,
+    C: Clone + Debug + Serialize + DeserializeOwned + Send + 'static,
 {
     fn name(&self) -> String {
         self.name.to_string()
@@ -344,7 +343,8 @@ where
                         let mut runner = TestRunner::new_with_rng(config, rng);
                         let failed = std::cell::Cell::new(false);
                         let stats_cell = std::cell::RefCell::new(&mut stats);
-                        let outcome = runner.run(&self.strategy, |case| {
+                        let strategy = (self.strategy)();
+                        let outcome = runner.run(&strategy, |case| {
                             if !failed.get() && stop.load(Ordering::Relaxed) {
                                 // another worker already found a violation: finish quickly
                                 return Ok(());
